@@ -395,6 +395,10 @@ def run(ctx):
         ctx.broke('vacuity:tamper-kinds', f'kinds never exercised: {missing}')
     stage_honest_rekey(ctx, encs, macs, comps)
     try:
+        stage_glued_async(ctx, encs, macs)
+    except Exception as e:
+        ctx.broke('stage:glued_async', repr(e))
+    try:
         from .. import c01_enc
         c01_enc.stage_byte(ctx)
     except Exception as e:
@@ -451,7 +455,8 @@ async def honest_rekey_case(enc, mac, comp, rk_c, rk_s):
             except OSError:
                 break
             sent.extend(blob)
-            await memwire.settle(3)
+            if i % 8 == 7:                      # bursts: packets of both directions are in flight during the re-keys
+                await memwire.settle(3)
         last, quiet = None, 0
         for _ in range(20000):
             await asyncio.sleep(0)
@@ -468,6 +473,113 @@ async def honest_rekey_case(enc, mac, comp, rk_c, rk_s):
         conn.abort()
         wire.cut_link()
         await memwire.settle(4)
+
+
+async def glued_async_case(enc, mac, flip_at):
+    """An altered packet that arrives in the SAME read as the packet before it, whose handler is asynchronous (the
+    peer's KEXINIT during a re-key): the alteration must still be reported when the buffered packet is picked up."""
+    import asyncssh
+    lost = {}
+
+    class SS(asyncssh.SSHServerSession):
+        def connection_made(self, chan):
+            self.chan = chan
+
+        def shell_requested(self):
+            return True
+
+        def session_started(self):
+            self.chan.write(bytes(5000))        # crosses the server's rekey_bytes: the server starts the exchange
+
+    class Srv(asyncssh.SSHServer):
+        def begin_auth(self, u):
+            return False
+
+        def session_requested(self):
+            return SS()
+
+        def connection_lost(self, exc):
+            lost['s'] = exc
+
+    class Cli(asyncssh.SSHClient):
+        def connection_lost(self, exc):
+            lost['c'] = exc
+
+    algs = dict(encryption_algs=[enc], mac_algs=[mac], compression_algs=['none'])
+    tun, wire, acc, conn = await memwire.connected_pair(
+        Srv, srv_kw=dict(algs, encoding=None, rekey_bytes=3000), cli_kw=dict(algs, client_factory=Cli))
+    try:
+        taps = {'c': [], 's': []}
+        memwire.tap(wire.cconn, taps['c'], wire, 'c')
+        memwire.tap(wire.sconn, taps['s'], wire, 's')
+        wire.auto = False
+        opening = asyncio.ensure_future(conn.create_session(asyncssh.SSHClientSession, encoding=None))
+        found = None
+        for _ in range(400):
+            await memwire.settle(2)
+            # everything the server wrote goes to the client at once; the client's writes are inspected first
+            metas = list(wire.meta['c'])
+            for i in range(len(metas) - 1):
+                if metas[i] is not None and metas[i][0] == 20 and metas[i + 1] is not None and 30 <= metas[i + 1][0] <= 49:
+                    found = i
+                    break
+            if found is not None and taps['s'] and any(m is not None and m[0] == 20 for m in wire.delivered_meta['s']):
+                break
+            found = None
+            if wire.q['c']:
+                wire.deliver('c', 1)
+            elif wire.q['s']:
+                wire.deliver('s', 1)
+            if lost:
+                break
+        if found is None:
+            return {'reached': False, 'lost': {k: repr(v) for k, v in lost.items()}}
+        wire.deliver('c', found)                           # everything before the client's KEXINIT
+        kexinit = wire.q['c'].popleft()
+        wire.meta['c'].popleft()
+        nxt = bytearray(wire.q['c'].popleft())
+        wire.meta['c'].popleft()
+        nxt[min(len(nxt) - 1, max(5, flip_at % len(nxt)))] ^= 0x20
+        wire._deliver_bytes('c', kexinit + bytes(nxt))     # ONE read: KEXINIT (async handler) + the altered packet
+        for _ in range(60):
+            await memwire.settle(2)
+            if 's' in lost:
+                break
+        return {'reached': True, 'reported': 's' in lost and isinstance(lost['s'], Exception), 'lost': {k: repr(v) for k, v in lost.items()}}
+    finally:
+        wire.auto = True
+        try:
+            conn.abort()
+        except Exception:
+            pass
+        wire.cut_link()
+        await memwire.settle(4)
+
+
+def stage_glued_async(ctx, encs, macs):
+    rng = ctx.rng
+    reached = 0
+    for k in range(12 if ctx.tier == 'thorough' else 4):
+        enc = rng.choice([e for e in encs if 'gcm' not in e and 'chacha' not in e][:6])
+        mac = rng.choice(macs)
+        flip_at = rng.randint(0, 400)
+        try:
+            r = sshutil.run(glued_async_case(enc, mac, flip_at), timeout=120)
+        except Exception as e:
+            ctx.broke('harness:glued_async', f'{enc} {mac}: {e!r}')
+            continue
+        ctx.note_case(('glued_async', enc, mac, flip_at), nontrivial=r.get('reached', False))
+        if not r.get('reached'):
+            continue
+        reached += 1
+        ctx.count('glued_async.reached')
+        if not r['reported']:
+            ctx.failing_input(f'{enc}/{mac}: during a re-key the packet behind the peer\'s KEXINIT was altered and delivered in '
+                              f'the same read; the receiving end reported nothing (connection_lost: {r["lost"]})',
+                              {'kind': 'glued_async', 'enc': enc, 'mac': mac, 'flip_at': flip_at})
+    ctx.cov['oracle']['glued_async_reached'] = reached
+    if not reached:
+        ctx.broke('vacuity:glued_async', 'no session reached the KEXINIT + next packet situation')
 
 
 def stage_honest_rekey(ctx, encs, macs, comps):
@@ -495,6 +607,10 @@ def stage_honest_rekey(ctx, encs, macs, comps):
 
 def replay(rp):
     core.setup_paths()
+    if rp.get('kind') == 'glued_async':
+        r = sshutil.run(glued_async_case(rp['enc'], rp['mac'], rp['flip_at']), timeout=120)
+        print(r)
+        return 1 if r.get('reached') and not r.get('reported') else 0
     if rp.get('kind') == 'honest_rekey':
         r = sshutil.run(honest_rekey_case(rp['enc'], rp['mac'], rp['comp'], rp['rk_c'], rp['rk_s']), timeout=300)
         print(r)
